@@ -3,6 +3,7 @@ C02 — Offsets are dense, increasing and never reused.
 -/
 import Klev.Proofs.Publish
 import Klev.Proofs.Reach
+import Klev.Proofs.Witness
 namespace Klev.C02
 
 /-- **Never reused.** Along any history — deleting the newest messages, emptying the whole
@@ -34,6 +35,30 @@ theorem live_below_next (l : Log) (hinv : Inv l) : ∀ m ∈ (abs l).live, 0 ≤
   exact ⟨hinv.shape.rec_nonneg hm, hinv.shape.lt_next hm⟩
 
 end Klev.C02
+
+/-! ### Non-vacuity: the theorems at the witness log `Witness.wL` (four segments, a hole, a
+deleted tail; `Klev/Proofs/Witness.lean`) -/
+section NonVacuity
+open Klev Klev.Witness
+
+-- the whole witness history from the empty log, and a continuation that deletes the newest
+-- message and then everything before publishing again
+example := Klev.C02.never_reused l0 l0_inv ops
+example := Klev.C02.never_reused wL wL_inv
+  [.delete [8], .publish [(60, [9], [9])], .delete [0, 1], .reopen [] none true oo, .publish [(61, [], [])]]
+example := Klev.C02.next_monotone wL wL_inv (.delete [8])
+example := Klev.C02.publish_offsets wL wL_inv [(60, [9], [9]), (61, [], [])]
+example := Klev.C02.live_below_next wL wL_inv
+
+-- evaluated: offsets 3 and 7 were assigned, deleted, and are never assigned again
+example : assigned l0 ops = [0, 1, 2, 3, 4, 5, 6, 7, 8] := by decide
+example : assigned wL [.delete [8], .publish [(60, [9], [9])], .delete [0, 1],
+    .reopen [] none true oo, .publish [(61, [], [])]] = [9, 10] := by decide
+example : (abs (stepOp wL (.delete [8]))).live.map (·.off) = [0, 1, 2, 4, 5, 6] ∧
+    (abs (stepOp wL (.delete [8]))).next = 9 := by decide
+example : (wL.publish [(60, [9], [9]), (61, [], [])]).2 = .ok 11 := by decide
+
+end NonVacuity
 
 #print axioms Klev.C02.never_reused
 #print axioms Klev.C02.next_monotone
